@@ -293,6 +293,59 @@ fn mechanism(img: &FsImage, dimg: &FsImage, name: &str, listed: bool) -> String 
     }
 }
 
+
+/// The referenced snapshot is unusable and recovery falls back to another snapshot file. Could the collection still
+/// be reproduced exactly from that other snapshot plus the WAL segments listed in the MANIFEST (i.e. nothing between
+/// the two snapshots has been compacted away)? Computed with the engine's own public readers over the damaged
+/// directory image, independently of the recovery code under test.
+fn log_still_covers_older_snapshot(dimg: &FsImage, damaged: &str, model: &Model) -> Option<bool> {
+    let bytes_of = |n: &str| dimg.names.get(n).and_then(|i| dimg.inodes.get(i)).cloned();
+    let mut best: Option<kyrodb_engine::Snapshot> = None;
+    for n in dimg.names.keys().filter(|n| n.starts_with("snapshot_") && n.ends_with(".snap") && n.as_str() != damaged) {
+        let Some(b) = bytes_of(n) else { continue };
+        let p = write_tmp(&b, "probe.older.snap");
+        if let Ok(sn) = kyrodb_engine::Snapshot::load(&p) {
+            if best.as_ref().map(|x| sn.last_wal_seq > x.last_wal_seq).unwrap_or(true) {
+                best = Some(sn);
+            }
+        }
+    }
+    let snap = best?;
+    let mut state: Model = Model::new();
+    let metas: std::collections::HashMap<u64, std::collections::HashMap<String, String>> = snap.metadata.iter().cloned().collect();
+    for (id, v) in &snap.documents {
+        state.insert(*id, (bits(v), to_btree(metas.get(id).unwrap_or(&Default::default()))));
+    }
+    let man_bytes = bytes_of("MANIFEST")?;
+    let pm = write_tmp(&man_bytes, "probe.older.manifest");
+    let man = kyrodb_engine::Manifest::load(&pm).ok()?;
+    let mut entries: Vec<kyrodb_engine::WalEntry> = Vec::new();
+    for seg in &man.wal_segments {
+        let b = bytes_of(seg)?;
+        let pw = write_tmp(&b, "probe.older.wal");
+        let mut r = kyrodb_engine::WalReader::open(&pw).ok()?;
+        entries.extend(r.read_all().ok()?);
+    }
+    entries.retain(|e| e.seq_no > snap.last_wal_seq);
+    entries.sort_by_key(|e| e.seq_no);
+    for e in entries {
+        match e.op {
+            kyrodb_engine::WalOp::Insert => {
+                state.insert(e.doc_id, (bits(&e.embedding), to_btree(&e.metadata)));
+            }
+            kyrodb_engine::WalOp::Delete => {
+                state.remove(&e.doc_id);
+            }
+            kyrodb_engine::WalOp::UpdateMetadata => {
+                if let Some(d) = state.get_mut(&e.doc_id) {
+                    d.1 = to_btree(&e.metadata);
+                }
+            }
+        }
+    }
+    Some(&state == model)
+}
+
 fn damage_facts(d: &Damage, newest: bool, mech: &str) -> BTreeMap<String, String> {
     let mut f = BTreeMap::new();
     let (role, kind) = match d {
@@ -447,7 +500,41 @@ pub fn explore(plan: &Plan, sum: &mut Summary, only: Option<&Damage>) -> Vec<Hit
                 };
                 let dimg2 = apply(&img, &d).unwrap();
                 let mech = mechanism(&img, &dimg2, &name, listed);
-                let facts = damage_facts(&d, newest, &mech);
+                let mut facts = damage_facts(&d, newest, &mech);
+                if let (Damage::Flip { offset, .. }, Role::Wal) = (&d, role_of(&name)) {
+                    // which part of the log layout was hit: a frame's 4-byte length prefix or something a checksum covers
+                    let orig = img.names.get(&name).and_then(|i| img.inodes.get(i)).cloned().unwrap_or_default();
+                    let region = if *offset < 4 {
+                        "magic"
+                    } else if wal_structure(&orig).iter().any(|(s0, _)| *offset >= *s0 && *offset < *s0 + 4) {
+                        "frame_length"
+                    } else {
+                        "frame_body_or_checksum"
+                    };
+                    facts.insert("flipped_region".into(), region.into());
+                }
+                if let (Damage::Flip { offset, .. }, Role::Man) = (&d, role_of(&name)) {
+                    // which MANIFEST field the flipped byte belongs to (by position in the JSON text)
+                    let orig = img.names.get(&name).and_then(|i| img.inodes.get(i)).cloned().unwrap_or_default();
+                    let text = String::from_utf8_lossy(&orig).to_string();
+                    let before = &text[..(*offset).min(text.len())];
+                    let field = ["\"version\"", "\"latest_snapshot\"", "\"latest_snapshot_wal_seq\"", "\"wal_segments\"", "\"last_updated\""]
+                        .iter()
+                        .filter_map(|k| before.rfind(k).map(|p| (p, *k)))
+                        .max()
+                        .map(|x| x.1.trim_matches('"').to_string())
+                        .unwrap_or_else(|| "structure".into());
+                    facts.insert("manifest_field".into(), field);
+                }
+                if mech.ends_with("other_snapshot_used") {
+                    // is the information genuinely gone (compacted log), or did recovery lose it although the log still has it?
+                    let covered = log_still_covers_older_snapshot(&dimg2, &name, &model);
+                    facts.insert("log_still_covers_older_snapshot".into(), match covered {
+                        Some(true) => "yes",
+                        Some(false) => "no",
+                        None => "undetermined",
+                    }.into());
+                }
                 let _ = kind;
                 hits.push(Hit { damage: d.clone(), facts, message: format!("strict start-up succeeded on a damaged directory ({:?} on {}; {}) with a different collection ({}): {}", d, simlibc::mask_name(&name), mech, kind, diff) });
             }
